@@ -250,6 +250,8 @@ func (d *Driver) Run() int {
 	var order []string
 	var mu sync.Mutex
 	var hangs []hangRec
+	const maxSolo = 6
+	soloConfirmed, suspected := 0, 0
 	nextID := 0
 	var chunks []chunk
 	add := func(c chunk) {
@@ -388,13 +390,27 @@ func (d *Driver) Run() int {
 							}
 							mu.Lock()
 							hangs = append(hangs, hangRec{c.stratum, idx, hash, kind, detail})
+							soloConfirmed++
 							mu.Unlock()
 						} else if idx >= 0 {
-							// re-run the suspect alone with a long budget, and the rest of the chunk without it
-							solo := c
-							solo.from, solo.to, solo.solo, solo.timeoutS = idx, idx+1, true, 600
-							solo.skip = nil
-							requeue(solo)
+							// re-run the suspect alone with a long budget, and the rest of the chunk without it;
+							// after maxSolo suspects of one run the verdict no longer depends on further
+							// confirmations and they are only listed (each confirmation costs up to the budget)
+							mu.Lock()
+							confirm := soloConfirmed < maxSolo
+							if !confirm {
+								suspected++
+							}
+							mu.Unlock()
+							if confirm {
+								solo := c
+								solo.from, solo.to, solo.solo, solo.timeoutS = idx, idx+1, true, 600
+								if p.SoloTimeoutS > 0 {
+									solo.timeoutS = p.SoloTimeoutS
+								}
+								solo.skip = nil
+								requeue(solo)
+							}
 							if agg == nil && idx > c.from {
 								pre := c
 								pre.to = idx
@@ -418,6 +434,9 @@ func (d *Driver) Run() int {
 	}
 	<-done
 	wg.Wait()
+	if suspected > 0 {
+		fmt.Printf("note: %d further cases ended their worker (crash or watchdog) and were not re-run alone: %d suspects of this run were already confirmed alone\n", suspected, maxSolo)
+	}
 	return d.Report(order, aggs, hangs)
 }
 
